@@ -72,7 +72,14 @@ class Source:
         return hashlib.sha256(ast.dump(node, include_attributes=False).encode()).hexdigest()[:16]
 
     # ---- class lattice
+    # library exception classes used by the code under contract that are neither builtins nor repo classes
+    EXTRA_BASES = {'IncompleteReadError': ['EOFError'], 'struct.error': ['Exception'], 'error': ['Exception'],
+                   'CancelledError': ['BaseException'], 'TimeoutError': ['OSError'], 'InvalidStateError': ['Exception'],
+                   'ConnectionClosed': ['Exception'], 'ConnectionClosedOK': ['ConnectionClosed'], 'ConnectionClosedError': ['ConnectionClosed']}
+
     def bases(self, cls):
+        if cls in self.EXTRA_BASES:
+            return list(self.EXTRA_BASES[cls])
         if cls in self.classes:
             _, n = self.classes[cls]
             out = []
@@ -103,7 +110,7 @@ class Source:
         return sup in self.ancestors(cls)
 
     def known_class(self, name):
-        return name in self.classes or isinstance(getattr(builtins, name, None), type)
+        return name in self.classes or name in self.EXTRA_BASES or isinstance(getattr(builtins, name, None), type)
 
     def method(self, cls, name):
         """(relpath, qualname, node) of the method resolved through the repo class lattice"""
